@@ -63,6 +63,14 @@ func lrNoise(r *gen.Rand, pkg string) []func() {
 			out = append(out, func() { bitmap.IndexSelect32(bm) }, func() { bitmap.IndexSelect32R64(bm) }, func() { bitmap.IndexRank64(bm, true) }, func() { bitmap.IndexRank128(bm) },
 				func() { bitmap.Of(bitmap.ToArray(bm)) }, func() { bitmap.Slice(bm, 3, int32(64*len(bm)-1)) }, func() { bitmap.NextOne(bm, 0, int32(64*len(bm))) }, func() { bitmap.Join(bm, 16) })
 		}
+		// packages that are built on this one are neighbours too: whatever they do to its tables happens in the same program
+		for k := 0; k < 12; k++ {
+			h := 1 + r.Intn(10)
+			mask := int32(1)<<uint(h) | int32(r.Intn(1<<uint(h)))
+			idx := int32(r.Intn(1<<uint(h+1) - 1))
+			out = append(out, func() { bmtree.PathToIndexLoose(mask, bmtree.IndexToPath(int32(h), idx)) }, func() { bmtree.Decode(mask, []uint64{^uint64(0), 0x5555}) },
+				func() { bitstr.New("neighbour", 3, 61) })
+		}
 	case "bmtree":
 		for k := 0; k < 40; k++ {
 			h := 1 + r.Intn(10)
